@@ -291,16 +291,103 @@ def truncation_layer(ctx, state_dirs, graph, every_offset: bool):
     return n, viols
 
 
+def inproc_task(task):
+    """Runs within one process (a driver script, a watch loop or a test harness calling the entry point again and again):
+    run -f / edit / run -f / ..., each run a new App with the cache enabled, all in one interpreter. The outputs after
+    the last run must equal those of a run from an empty cache in a fresh process."""
+    import itertools  # noqa
+    import json
+    import rogw.tranp.bin.transpile as cli
+    graph, edits = task
+    root = scratch_root('c05-inproc-')
+    r, w = os.pipe()
+    pid = os.fork()
+    if pid == 0:
+        code = 0
+        try:
+            os.close(r)
+            devnull = os.open(os.devnull, os.O_WRONLY)
+            os.dup2(devnull, 1)
+            os.dup2(devnull, 2)
+            ws = init_state(graph, 'content-bound')(os.path.join(root, 'ws'))
+            os.chdir(ws.root)
+            out = {'error': None}
+            try:
+                cli.App(cli.TranspileApp.definitions(cli.Args(['-c', 'config.yml', '-f']))).run(cli.TranspileApp.run)
+                for k, (rel, variant) in enumerate(edits):
+                    ws.write_source(rel, wsgraphs.GRAPHS[graph][rel][variant], BASE_MTIME + 5000 + 10 * k)
+                    cli.App(cli.TranspileApp.definitions(cli.Args(['-c', 'config.yml', '-f']))).run(cli.TranspileApp.run)
+            except BaseException as e:  # noqa
+                out['error'] = f'{type(e).__name__}: {str(e)[:200]}'
+            os.write(w, json.dumps(out).encode())
+        except BaseException:  # noqa
+            code = 3
+        finally:
+            os._exit(code)
+    os.close(w)
+    data = b''
+    while True:
+        chunk = os.read(r, 65536)
+        if not chunk:
+            break
+        data += chunk
+    os.close(r)
+    os.waitpid(pid, 0)
+    viol = []
+    try:
+        if not data:
+            return [(['in-process-runs', 'harness-child-died'], f'{edits}')]
+        ws = Workspace(os.path.join(root, 'ws'))
+        mine = ws.outputs()
+        err = json.loads(data.decode())['error']
+        cold = ws.copy_to(ws.root + '.cold')
+        cold.clear_cache()
+        for rel in list(cold.outputs()):
+            os.remove(os.path.join(cold.root, rel))
+        res = cold.run(force=True)
+        ref = cold.outputs()
+        if err and res[0] == 'ok':
+            viol.append((['in-process-runs', 'fails-only-with-history'], f'a run in the process failed ({err}); the same sources from an empty cache in a fresh process succeed'))
+        elif not err and res[0] == 'ok':
+            for rel in sorted(set(mine) | set(ref)):
+                if mine.get(rel) != ref.get(rel):
+                    a, b = (mine.get(rel) or '').split('\n'), (ref.get(rel) or '').split('\n')
+                    i = next((j for j in range(min(len(a), len(b))) if a[j] != b[j]), 0)
+                    viol.append((['in-process-runs', 'warm-differs-from-cold'], f'{rel}: after the runs in one process {a[i] if i < len(a) else ""!r}, from an empty cache in a fresh process {b[i] if i < len(b) else ""!r}'))
+                    break
+    finally:
+        shutil.rmtree(root, ignore_errors=True)
+    return viol
+
+
+def inproc_layer(ctx):
+    import itertools
+    graph = 'pair'
+    alphabet = [(rel, v) for rel, variants in wsgraphs.GRAPHS[graph].items() for v in variants]
+    seqs = []
+    for n in (1, 2) if ctx.quick else (1, 2, 3):
+        for seq in itertools.product(alphabet, repeat=n):
+            if all(seq[i] != seq[i + 1] for i in range(len(seq) - 1)):
+                seqs.append(list(seq))
+    res = pool.pmap(inproc_task, [(graph, sq) for sq in seqs], workers=ctx.workers)
+    viols = []
+    for sq, v in zip(seqs, res):
+        viols += [((sig, what), sq) for sig, what in v]
+    return len(seqs), viols
+
+
 def run(ctx):
     import rogw.tranp.bin.transpile  # noqa
-    configs = [('pair', 'content-bound'), ('chain3', 'content-bound'), ('prefix3', 'monotone'), ('pair', 'subsecond'), ('pair', 'recycled'), ('pair', 'grammar'), ('pair', 'symlink')] if ctx.quick else \
-        [('pair', 'content-bound'), ('pair', 'monotone'), ('chain3', 'content-bound'), ('chain3', 'monotone'), ('chain3p', 'monotone'), ('prefix3', 'monotone'), ('diamond4', 'content-bound'), ('pair', 'subsecond'), ('chain3', 'subsecond'), ('pair', 'recycled'), ('pair', 'grammar'), ('chain3', 'symlink')]
+    configs = [('pair', 'content-bound'), ('chain3', 'content-bound'), ('prefix3', 'monotone'), ('pair', 'subsecond'), ('pair', 'recycled'), ('pair', 'grammar'), ('pair', 'symlink'), ('swap3', 'content-bound')] if ctx.quick else \
+        [('pair', 'content-bound'), ('pair', 'monotone'), ('chain3', 'content-bound'), ('chain3', 'monotone'), ('chain3p', 'monotone'), ('prefix3', 'monotone'), ('diamond4', 'content-bound'), ('pair', 'subsecond'), ('chain3', 'subsecond'), ('pair', 'recycled'), ('pair', 'grammar'), ('chain3', 'symlink'), ('swap3', 'content-bound')]
     total = {'states': 0, 'transitions': 0, 'truncations': 0}
     per = {}
     for graph, policy in configs:
         # the 'recycled' policy lives in a directory whose name holds glob metacharacters (purging old revisions must still work there)
         root = scratch_root('c05-[1]x-' if policy == 'recycled' else 'c05-')
-        depth = (3 if ctx.quick else 5) if policy == 'content-bound' else (4 if policy == 'recycled' else (3 if policy == 'grammar' else (2 if ctx.quick else 3)))
+        # thorough: the two-module graph is explored one level deeper than the larger ones (a full thorough run stays near an hour)
+        deep = graph == 'pair'
+        depth = (3 if ctx.quick else (5 if deep else 4)) if policy == 'content-bound' else (4 if policy == 'recycled' else (3 if policy == 'grammar' else (2 if ctx.quick or not deep else 3)))
         _lib.clear()
         _lib['project_grammar'] = policy == 'grammar'   # (a project grammar rebuilds parser and library entries: no fixed digest)
         try:
@@ -323,6 +410,9 @@ def run(ctx):
         per[f'{graph}/{policy}'] = stats
         for (sig, what), hist in viols:
             ctx.violation(sig, f'{graph}/{policy} after {hist}: {what}', {'graph': graph, 'policy': policy, 'history': hist})
+    n_inproc, iviols = inproc_layer(ctx)
+    for (sig, what), sq in iviols:
+        ctx.violation(sig, f'pair, forced runs in one process after the edits {sq}: {what}', {'graph': 'pair', 'inproc_edits': sq})
     return {
         'states': total['states'],
         'transitions': total['transitions'] + total['truncations'],
@@ -330,13 +420,18 @@ def run(ctx):
         'samples': [{'graph': 'chain3', 'policy': 'content-bound', 'history': [['run-f'], ['edit', 'proj/a.py', 'vT'], ['run-f']]}, {'graph': 'pair', 'history': [['run-f-nocache']]}],
         'per_configuration': per,
         'truncation_runs': total['truncations'],
-        'bound': f'BFS depth <= {3 if ctx.quick else 5} (content-bound mtimes) / <= {2 if ctx.quick else 3} (monotone mtimes) with exact state dedup over {configs}; invariant (warm vs cold forced run) on every reachable state; truncation of project cache files at {"every offset" if not ctx.quick else "offsets 0, 1, n/2, n-1"} on representative reachable states',
+        'in_process_histories': n_inproc,
+        'bound': f'BFS depth <= {3 if ctx.quick else "5 (pair) / 4 (larger graphs)"} (content-bound mtimes) / <= {2 if ctx.quick else "3 (pair) / 2"} (monotone, sub-second, symlink) / 4 (recycled) / 3 (grammar) with exact state dedup over {configs}; invariant (warm vs cold forced run) on every reachable state; truncation of project cache files at {"every offset" if not ctx.quick else "offsets 0, 1, n/2, n-1"} on representative reachable states; in-process layer: {n_inproc} histories run -f / edit / run -f ... over the pair graph with every run a new App in one interpreter, outputs equal to a run from an empty cache in a fresh process',
         'exhaustive': True,
     }
 
 
 def replay(ctx, data):
     import rogw.tranp.bin.transpile  # noqa
+    if 'inproc_edits' in data:
+        for sig, what in inproc_task((data['graph'], [tuple(e) for e in data['inproc_edits']])):
+            ctx.violation(sig, what, data)
+        return
     graph, policy = data['graph'], data.get('policy', 'content-bound')
     root = scratch_root('c05r-[1]x-' if policy == 'recycled' else 'c05r-')
     try:
